@@ -24,7 +24,7 @@ type rangeCtx struct {
 	fnDecl  ast.Node // enclosing FuncDecl or FuncLit
 	fnKey   string
 	rs      *ast.RangeStmt
-	locals  map[types.Object]bool   // declared inside the range statement (incl. key/value)
+	locals  map[types.Object]bool     // declared inside the range statement (incl. key/value)
 	defs    map[types.Object]ast.Expr // single-assignment locals -> defining expression
 	notes   []string
 	bad     []string
@@ -832,7 +832,7 @@ func runE4(p *Program, sp *Spec, c *Collector) {
 	}
 	c.Count("E4.map_ranges", nRanges)
 	if nRanges < sp.Tables.Floors["E4.map_ranges"] {
-		c.Fatal("E4: only %d map ranges found, floor is %d", nRanges, sp.Tables.Floors["E4.map_ranges"])
+		c.Anchor([]string{"C08"}, "E4: only %d map ranges found, floor is %d", nRanges, sp.Tables.Floors["E4.map_ranges"])
 	}
 	runE4Orders(p, sp, c)
 	runE4Search(p, sp, c)
@@ -857,10 +857,10 @@ func dedupStrings(in []string) []string {
 
 type OrderSpec struct {
 	Props []string `json:"props"`
-	Func  string   `json:"func"`  // function key in which the sort must occur
-	Key   string   `json:"key"`   // field path compared, e.g. "RevsCount" or "FanIn+FanOut" or "Age" or "<elem>"
-	Dir   string   `json:"dir"`   // "asc" | "desc"
-	Via   string   `json:"via"`   // "sort.Slice" | "radix" | "Before"
+	Func  string   `json:"func"` // function key in which the sort must occur
+	Key   string   `json:"key"`  // field path compared, e.g. "RevsCount" or "FanIn+FanOut" or "Age" or "<elem>"
+	Dir   string   `json:"dir"`  // "asc" | "desc"
+	Via   string   `json:"via"`  // "sort.Slice" | "radix" | "Before"
 	What  string   `json:"what"`
 	// PerGroup: the function sorts every group inside a loop (SortSmellByType, SortLangeByCode); Guard names the only
 	// condition allowed to skip a group ("param:<name>" = a predicate passed in by the caller).
@@ -1016,7 +1016,7 @@ func runE4Orders(p *Program, sp *Spec, c *Collector) {
 		fn := p.Func(os.Func)
 		key := "order:" + os.Func + " by " + os.Key + " " + os.Dir
 		if fn == nil {
-			c.Fatal("E4: promised order: function %s does not resolve", os.Func)
+			c.Anchor(os.Props, "E4: promised order: function %s does not resolve", os.Func)
 			continue
 		}
 		// find sort calls in fn (or in its anonymous functions)
